@@ -10,7 +10,7 @@ from collections import Counter
 
 from . import ops
 from .classes import ABSENT, HarnessError, new_resource
-from .plain import ordered_eq, Ref, Slice, dec, enc, is_plain, kind_of, plain
+from .plain import ordered_eq, type_exact_eq, Ref, Slice, dec, enc, is_plain, kind_of, plain
 
 
 class Mismatch(Exception):
@@ -135,9 +135,10 @@ def unlinked_children(kind, m, a, n_before, model_out):
 
 class World:
     def __init__(self, ci, directory, initial=ABSENT, nres=1, check_outcome=True,
-                 check_resource=True, initial_docs=None, excl=(), ordered=False):
+                 check_resource=True, initial_docs=None, excl=(), ordered=False, exact=False):
         self.ci = ci
         self.ordered = ordered     # also compare dict key order (C03 "ordered" part only)
+        self.exact = exact         # reads must also have the backend's JSON leaf types (C02)
         self.excl = set(excl)      # active known-finding exclusions (by construction)
         self.excluded = 0
         self.poisoned = set()      # resources currently holding the other root kind
@@ -395,7 +396,7 @@ class World:
             elif before_doc != self.docs[h.res]:
                 raise HarnessError(f"model mutated by a raising op {m} {a!r}")
             self.revalidate()
-        if self.check_outcome and not ops.same_outcome(h.kind, m, real, model, ordered=self.ordered):
+        if self.check_outcome and not ops.same_outcome(h.kind, m, real, model, ordered=self.ordered, exact=self.exact):
             raise Mismatch("outcome", step=s, real=real.brief(), model=model.brief(),
                            depth=len(h.path))
         if mut and self.check_resource:
@@ -453,6 +454,7 @@ class World:
                 raise Mismatch("final_read_raised", handle=i, path=list(h.path),
                                error=f"{type(e).__name__}: {str(e)[:160]}")
             exp = self.model_at(h)
-            if got != exp or (self.ordered and not ordered_eq(got, exp)):
+            if got != exp or (self.ordered and not ordered_eq(got, exp)) or \
+                    (self.exact and not type_exact_eq(got, exp)):
                 raise Mismatch("final_read", handle=i, path=list(h.path), got=got,
                                expected=copy.deepcopy(exp))
